@@ -205,6 +205,29 @@ def evaluate(progs, cfgs, binary=None, workers=4):
     return recs, stderr
 
 
+def build_race_harness():
+    """`go build -race` of the harness with checkptr switched off: -race implies -d=checkptr, and the VM's unsafe stack
+    arithmetic (vm.Thread.spGet) makes every program run die with `fatal error: checkptr: pointer arithmetic result
+    points to invalid allocation`. Same command as vlib.build_harness(race=True) plus the gcflags (see docs/C11.md, requests)."""
+    import shutil
+    os.makedirs(vlib.BIN, exist_ok=True)
+    out = vlib.ELKH + "-race"
+    with vlib.Lock("go"):
+        sums = os.path.join(vlib.HARNESS, "go.sum")
+        if not os.path.exists(sums):
+            shutil.copy(os.path.join(vlib.REPO, "go.sum"), sums)
+        cmd = ["go", "build", "-tags", "verif", "-race", "-gcflags=all=-d=checkptr=0"]
+        if vlib.REPO != "/repo":
+            alt = os.path.join(vlib.BUILD, "go.alt.mod")
+            mod = open(os.path.join(vlib.HARNESS, "go.mod")).read().replace("=> /repo", "=> " + vlib.REPO)
+            vlib.write_if_changed(alt, mod)
+            shutil.copy(sums, os.path.join(vlib.BUILD, "go.alt.sum"))
+            cmd += ["-modfile=" + alt]
+        cmd += ["-o", out, "./cmd/elkh"]
+        rc, log = vlib.sh(cmd, cwd=vlib.HARNESS, env=vlib.go_env(), timeout=3000)
+    return rc == 0, log
+
+
 RACE_RE = re.compile(r"WARNING: DATA RACE\n(.*?)(?:\n==================|\Z)", re.S)
 
 
@@ -259,7 +282,7 @@ def run(ctx):
     ctx.obligation(f"same diagnostics multiset and output under {len(cfgs)} (limit, schedule seed) configurations on {len(progs)} programs",
                    ok, "correspondence")
     if not ctx.quick and not ctx.replay:
-        okb, log = vlib.build_harness(race=True)
+        okb, log = build_race_harness()
         if not okb:
             ctx.obligation("go build -race of the harness", False, "build", log[-600:])
             return
